@@ -98,6 +98,7 @@ type Exec struct {
 	streams     map[*Value]*streamState
 	uuids       []*Term
 	pools       map[*Value][]Value
+	heldLocks   map[*Value]int
 	nuuid       int
 	onceDone    map[*Value]bool
 
